@@ -1,7 +1,7 @@
 SPECIFICATION Spec
 CONSTANTS
   Frames = {"A", "B", "C"}
-  ParamIds = {"nil", "def"}
+  ParamIds = {"nil", "def", "alt"}
   MaxOps = 2
   MaxSeq = 2
 INVARIANTS OneToOneInOrder HistoryFree Emit
